@@ -845,6 +845,13 @@ pub async fn process_multiple_changes(
                         .partials
                         .range(versions.clone())
                         .map(|(version, _)| *version)
+                        // chunks buffered earlier in this very batch are not in memory yet
+                        .chain(
+                            seen.overlapping(&versions)
+                                .filter(|(_, partial)| partial.is_some())
+                                .flat_map(|(seen_versions, _)| seen_versions.clone())
+                                .filter(|version| versions.contains(version)),
+                        )
                         .collect();
                     if !superseded.is_empty() {
                         applied_complete
